@@ -131,6 +131,7 @@ type c10B struct {
 	upgrades map[uint32]bool // prevTerm -> upgrade entry present
 	sSealed  bool
 	sTerm    uint32
+	sBase    uint32 // newest term the standby loaded from storage (unseal / keyring reload); newer ones came by the upgrade path
 	sRoot    []byte // root key the standby holds according to the model (the one it was unsealed with / last reloaded)
 	ref      c10KR  // key material of the active node after its last key operation
 	cts      []c10CT
@@ -895,9 +896,89 @@ func (e *c10B) sbUnseal() bool {
 	}
 	e.sSealed = false
 	e.sTerm = e.term
+	e.sBase = e.term
 	e.sRoot = append([]byte(nil), e.root...)
 	e.readAll(e.s, "standby after unseal")
 	return !e.failed
+}
+
+// sbRead: the standby serves reads at every point of its life (a read-enabled standby does, and so
+// does the node that just stepped down). An entry or ciphertext whose term the standby's keyring
+// holds must read back with its value - through Get, through a read-only transaction where the
+// store has them, through Decrypt; listing needs no key at all. An entry of a term the standby has
+// not installed yet cannot be opened: that failure is legitimate and only counted, but it must not
+// leave anything behind that makes the entry unreadable once the term has arrived.
+func (e *c10B) sbRead(when string) {
+	if e.s == nil || e.sSealed || e.failed || e.s.Sealed() {
+		return
+	}
+	kr := c10Raw(e.s).keyring
+	if kr == nil {
+		return
+	}
+	has := func(t uint32) bool { return kr.keys[t] != nil }
+	var keys []string
+	for k := range e.data {
+		keys = append(keys, k)
+	}
+	sort.Strings(keys)
+	var txn logical.Transaction
+	if ts, ok := e.s.(logical.TransactionalStorage); ok {
+		if t, err := ts.BeginReadOnlyTx(c10Ctx); err == nil {
+			txn = t
+			defer func() { _ = txn.Rollback(c10Ctx) }()
+		}
+	}
+	e.r.Count("standby_read_sweeps", 1)
+	for i, k := range keys {
+		t := e.dterm[k]
+		var got *logical.StorageEntry
+		var err error
+		via := "Get"
+		if txn != nil && i%2 == 1 {
+			via = "read-only transaction Get"
+			got, err = txn.Get(c10Ctx, k)
+		} else {
+			got, err = e.s.Get(c10Ctx, k)
+		}
+		if has(t) {
+			if err != nil || got == nil || !bytes.Equal(got.Value, e.data[k]) {
+				e.viol("standby-entry-unreadable-although-keyring-has-its-term", "standby %s: %s(%s) err=%v found=%v; the entry was written under term %d and the standby's keyring holds that term (standby keyring %s, loaded terms up to %d from storage, later ones by the upgrade path)", when, via, strings.TrimPrefix(k, e.meta), err, got != nil, t, c10Snap(kr), e.sBase)
+				return
+			}
+			e.r.Count("standby_reads_ok", 1)
+			if t > e.sBase {
+				e.r.Count("standby_rereads_ok_of_terms_installed_by_the_upgrade_path", 1)
+			}
+			continue
+		}
+		if err == nil && got != nil {
+			e.viol("standby-read-answered-without-the-term-key", "standby %s: %s(%s) returned an entry of term %d although its keyring holds no key for that term", when, via, k, t)
+			return
+		}
+		e.r.Count("standby_reads_while_behind_failed_legitimately", 1)
+	}
+	for _, c := range e.cts {
+		pt, err := e.s.Decrypt(c10Ctx, c.path, c.ct)
+		if has(c.term) {
+			if err != nil || !bytes.Equal(pt, c.pt) {
+				e.viol("standby-entry-unreadable-although-keyring-has-its-term", "standby %s: Decrypt of a ciphertext the active node made under term %d: %v; the standby's keyring holds that term (standby keyring %s)", when, c.term, err, c10Snap(kr))
+				return
+			}
+			e.r.Count("standby_decrypts_ok", 1)
+			if c.term > e.sBase {
+				e.r.Count("standby_rereads_ok_of_terms_installed_by_the_upgrade_path", 1)
+			}
+		} else if err == nil {
+			e.viol("standby-read-answered-without-the-term-key", "standby %s: Decrypt of a term-%d ciphertext succeeded without a key for that term", when, c.term)
+			return
+		} else {
+			e.r.Count("standby_reads_while_behind_failed_legitimately", 1)
+		}
+	}
+	if _, err := e.s.List(c10Ctx, e.meta+"d/"); err != nil {
+		e.viol("list-failed", "standby %s: List: %v", when, err)
+	}
 }
 
 // sbCompare looks at the standby directly after ONE step of the upgrade path (one CheckUpgrade
@@ -1002,6 +1083,10 @@ func (e *c10B) sbFollow(style string) bool {
 	intact := e.pathIntact()
 	behind := e.term - e.sTerm
 	rootStale := !bytes.Equal(e.sRoot, e.root)
+	e.sbRead("before it follows the upgrade path")
+	if e.failed {
+		return false
+	}
 	var err error
 	upgraded := 0
 	for i := 0; i < 64; i++ {
@@ -1023,6 +1108,10 @@ func (e *c10B) sbFollow(style string) bool {
 		if e.failed {
 			return false
 		}
+		e.sbRead(fmt.Sprintf("after CheckUpgrade installed term %d", nt))
+		if e.failed {
+			return false
+		}
 	}
 	reloadedRoot, reloadedRing := false, false
 	if err == nil && (style == "reload" || rootStale) {
@@ -1036,6 +1125,10 @@ func (e *c10B) sbFollow(style string) bool {
 			} else {
 				e.sRoot = append([]byte(nil), e.root...)
 				e.sbCompare("reload-root-key", false)
+				if e.failed {
+					return false
+				}
+				e.sbRead("after ReloadRootKey")
 				if e.failed {
 					return false
 				}
@@ -1097,6 +1190,7 @@ func (e *c10B) sbFollow(style string) bool {
 		return false
 	}
 	e.sTerm = e.term
+	e.sBase = e.term
 	e.sRoot = append([]byte(nil), e.root...)
 	e.sbCompare("reload-keyring", true)
 	if e.failed {
@@ -1146,6 +1240,7 @@ func (e *c10B) opPromote(style, keyOp string) {
 	e.p, e.s = e.s, e.p
 	e.sealed, e.sSealed = false, !stays
 	e.sTerm = e.term
+	e.sBase = e.term
 	e.sRoot = append([]byte(nil), e.root...)
 	e.ref = c10Snap(c10Raw(e.p).keyring)
 	e.r.Count("promotions", 1)
@@ -1211,6 +1306,9 @@ func (e *c10B) opStandbyX(followOnly bool) {
 		e.opPromote(kit.Pick(e.rng, []string{"reload", "upgrade-only"}), kit.Pick(e.rng, c10PromoteKeyOps))
 	case x == 3:
 		e.sbFollow("upgrade-only")
+	case x == 4:
+		e.step("standby-read", "standby serves reads (%d term(s) behind)", e.term-e.sTerm)
+		e.sbRead("serving reads")
 	default:
 		e.sbFollow("reload")
 	}
@@ -1239,6 +1337,11 @@ func (e *c10B) opDestroyUpgrade() {
 func (e *c10B) run(n int) {
 	for i := 0; i < n && !e.failed; i++ {
 		e.r.Count("ops", 1)
+		// the standby serves reads between any two operations of the active node
+		e.sbRead("serving reads between two operations of the active node")
+		if e.failed {
+			return
+		}
 		if e.sealed {
 			switch x := e.rng.Intn(10); {
 			case x < 6:
@@ -1524,6 +1627,9 @@ func TestVerif_C10_BarrierHistories(t *testing.T) {
 	r.Require("promotions", 50/div)
 	r.Require("promotions:upgrade-only", 25/div)
 	r.Require("fresh_instance_unseals_after_promotion", 50/div)
+	r.Require("standby_reads_while_behind_failed_legitimately", 300/div)
+	r.Require("standby_rereads_ok_of_terms_installed_by_the_upgrade_path", 300/div)
+	r.Require("standby_reads_ok", 5000/div)
 }
 
 func TestVerif_C10_BarrierFaults(t *testing.T) {
